@@ -102,9 +102,10 @@ func valueId(b []byte) int {
 	return v
 }
 
-// size of the value with id v in replayed behaviours: ids are few, sizes are chosen so that a 64 KB block
-// holds one, two or many entries
-var replaySizes = []int{36000, 24000, 64, 44000}
+// size of the value with id v in replayed behaviours.  Pebble closes a data block when it has reached 90% of
+// the 64 KB block size (or the next entry would push it over 64 KB): values of 60 KB get a block each (so every
+// adjacent pair of keys gets an index separator), 36 KB values share a block in pairs, small values pile up.
+var replaySizes = []int{60000, 36000, 64, 61000}
 
 func replaySize(v int) int { return replaySizes[(v+len(replaySizes)-1)%len(replaySizes)] }
 
@@ -114,10 +115,11 @@ func replaySize(v int) int { return replaySizes[(v+len(replaySizes)-1)%len(repla
 var shardCounter atomic.Int64
 
 type engine struct {
-	dir   string
-	shard int64
-	f     kv.Factory
-	kv    kv.KV
+	dir       string
+	shard     int64
+	f         kv.Factory
+	kv        kv.KV
+	abandoned bool // a goroutine is stuck inside: do not close
 }
 
 func newEngine() (*engine, error) {
@@ -148,6 +150,10 @@ func (e *engine) open() error {
 }
 
 func (e *engine) close() {
+	if e.abandoned {
+		_ = os.RemoveAll(e.dir)
+		return
+	}
 	if e.kv != nil {
 		_ = e.kv.Close()
 	}
@@ -333,8 +339,11 @@ func vias(mode string) []string {
 //	via "scan"  KV.RangeScan            via "list" KV.KeyRangeScan (keys; values read back by exact get)
 //	via "rev"   KV.KeyRangeScanReverse (descending; keys)      via "batch" WriteBatch.KeyRangeScan (both bounds set)
 func (e *engine) scan(lo, hi key, via string) (res string, ks []key, vs []int) {
+	return e.scanLimit(lo, hi, via, 10000)
+}
+
+func (e *engine) scanLimit(lo, hi key, via string, limit int) (res string, ks []key, vs []int) {
 	ks, vs = []key{}, []int{}
-	const limit = 100000
 	switch via {
 	case "scan":
 		it, err := e.kv.RangeScan(lo.s(), hi.s())
@@ -428,6 +437,7 @@ func liveKey(l []kvPair) string {
 
 type mismatch struct {
 	Path   []call `json:"path"`
+	Probes []key  `json:"probes"` // the keys of the failing query (asked again on re-execution)
 	Query  string `json:"query"`
 	What   string `json:"what"`
 	Expect any    `json:"expect"`
@@ -464,7 +474,7 @@ func replayOne(b *behaviour, o *obs, queries *int64) (mm *mismatch, err error) {
 			atomic.AddInt64(queries, 1)
 			res, r := e.get(g.K, g.M, via)
 			if strings.HasPrefix(res, "err") || !same(r, g.R) {
-				return &mismatch{Path: b.Path, Query: fmt.Sprintf("Get(%q, %s) via %s", g.K.s(), g.M, via),
+				return &mismatch{Path: b.Path, Probes: []key{g.K}, Query: fmt.Sprintf("Get(%q, %s) via %s", g.K.s(), g.M, via),
 					What:   fmt.Sprintf("spec: %v, code: %v (%s)", g.R, r, res),
 					Expect: g.R, Got: r}, nil
 			}
@@ -491,7 +501,7 @@ func replayOne(b *behaviour, o *obs, queries *int64) (mm *mismatch, err error) {
 				}
 			}
 			if res != "ok" || fmtKeys(ks) != fmtKeys(wk) || !reflect.DeepEqual(vs, wv) {
-				return &mismatch{Path: b.Path, Query: fmt.Sprintf("Scan(%q, %q) via %s", s.Lo.s(), s.Hi.s(), via),
+				return &mismatch{Path: b.Path, Probes: []key{s.Lo, s.Hi}, Query: fmt.Sprintf("Scan(%q, %q) via %s", s.Lo.s(), s.Hi.s(), via),
 					What:   fmt.Sprintf("spec: %s values %v, code: %s values %v (%s)", fmtKeys(wk), wv, fmtKeys(ks), vs, res),
 					Expect: s.R, Got: ks}, nil
 			}
@@ -553,6 +563,7 @@ type replayResult struct {
 	Queries    int64      `json:"queries"`
 	Mismatches []mismatch `json:"mismatches"`
 	Bad        int        `json:"bad"`
+	Unreprod   int        `json:"unreproduced"`
 	Truncated  bool       `json:"truncated"`
 }
 
@@ -596,7 +607,7 @@ func cmdReplay(args []string) int {
 	var res replayResult
 	var mu sync.Mutex
 	var wg sync.WaitGroup
-	var next, bad, harnessErr int64
+	var next, bad, harnessErr, unreproduced int64
 	var queries int64
 	seen := map[string]bool{}
 	for w := 0; w < *par; w++ {
@@ -638,13 +649,23 @@ func cmdReplay(args []string) int {
 				if mm.Path == nil {
 					mm.Path = b.Path
 				}
-				// only a mismatch that reproduces on re-execution is reported
+				// only a deviation that shows again on re-execution is reported (a broken engine need not fail
+				// at the same query twice: background compactions change the layout)
 				if !hung {
-					mm2, err, hung2 := guarded(60*time.Second, run)
-					if err != nil || hung2 || mm2 == nil || mm2.Query != mm.Query {
+					var mm2 *mismatch
+					for attempt := 0; attempt < 3 && mm2 == nil; attempt++ {
+						var err error
+						mm2, err, _ = guarded(60*time.Second, run)
+						if err != nil {
+							fmt.Fprintln(os.Stderr, "harness failure:", err)
+							atomic.AddInt64(&harnessErr, 1)
+							return
+						}
+					}
+					if mm2 == nil {
 						fmt.Fprintln(os.Stderr, "mismatch did not reproduce:", mm.Query, mm.What)
-						atomic.AddInt64(&harnessErr, 1)
-						return
+						atomic.AddInt64(&unreproduced, 1)
+						continue
 					}
 				}
 				atomic.AddInt64(&bad, 1)
@@ -663,6 +684,7 @@ func cmdReplay(args []string) int {
 		return 2
 	}
 	res.Bad = int(bad)
+	res.Unreprod = int(unreproduced)
 	res.Queries = queries
 	res.Truncated = res.Behaviours < len(behs)
 	b, _ := json.Marshal(res)
@@ -910,10 +932,40 @@ func blank(a string) tline {
 }
 
 type recorder struct {
-	e   *engine
-	enc *json.Encoder
-	n   int
-	err error
+	e     *engine
+	enc   *json.Encoder
+	flush func() // after every mutation line: a crash of the process must not lose the calls that led to it
+	n     int
+	err   error
+	hung  bool // a call into the engine did not return: the engine is not touched again
+	nputs int
+}
+
+var callTimeout = 60 * time.Second
+
+// guard runs one call into the engine under a watchdog (a hang is an observation, not a reason to block);
+// a panic inside the engine is an observation too.
+func (r *recorder) guard(f func()) (outcome string) {
+	if r.hung {
+		return "skipped"
+	}
+	done := make(chan string, 1)
+	go func() {
+		defer func() {
+			if p := recover(); p != nil {
+				done <- fmt.Sprintf("panic: %v", p)
+			}
+		}()
+		f()
+		done <- ""
+	}()
+	select {
+	case o := <-done:
+		return o
+	case <-time.After(callTimeout):
+		r.hung = true
+		return "hang: the call did not return within " + callTimeout.String()
+	}
 }
 
 func (r *recorder) emit(l *tline) {
@@ -941,18 +993,36 @@ func (r *recorder) mutate(c call) {
 	if l.Hi == nil {
 		l.Hi = key{}
 	}
-	err := r.e.mutate(&c)
+	if r.hung {
+		return
+	}
+	var err error
+	if o := r.guard(func() { err = r.e.mutate(&c) }); o != "" {
+		err = errors.New(o)
+	}
 	l.Sz = c.Sz
+	if c.A == "Put" {
+		r.nputs++
+	}
 	if err != nil {
 		l.Res = "err: " + err.Error()
 	}
 	r.emit(&l)
+	if r.flush != nil {
+		r.flush()
+	}
 }
 
 func (r *recorder) get(k key, mode, via string) {
 	l := blank("Get")
 	l.K, l.M, l.Via = k, mode, via
-	res, x := r.e.get(k, mode, via)
+	if r.hung {
+		return
+	}
+	res, x := "", notFound
+	if o := r.guard(func() { res, x = r.e.get(k, mode, via) }); o != "" {
+		res, x = "err: "+o, notFound
+	}
 	l.Res, l.Rf, l.Rk, l.Rv = res, x.F, x.K, x.V
 	r.emit(&l)
 }
@@ -964,7 +1034,17 @@ func (r *recorder) scan(lo, hi key, via string) {
 	}
 	l := blank(a)
 	l.Lo, l.Hi, l.Via = lo, hi, via
-	l.Res, l.Keys, l.Vals = r.e.scan(lo, hi, via)
+	if r.hung {
+		return
+	}
+	var res string
+	var ks []key
+	var vs []int
+	// an iteration can never legitimately return more keys than were ever put
+	if o := r.guard(func() { res, ks, vs = r.e.scanLimit(lo, hi, via, r.nputs+4) }); o != "" {
+		res, ks, vs = "err: "+o, nil, nil
+	}
+	l.Res, l.Keys, l.Vals = res, ks, vs
 	r.emit(&l)
 }
 
@@ -1048,10 +1128,10 @@ func genKeys(rng *rand.Rand, n int, adv []row) []string {
 
 func randSize(rng *rand.Rand) int {
 	switch x := rng.Intn(10); {
-	case x < 6:
-		return 33000 + rng.Intn(12000) // one entry per 64 KB block
+	case x < 5:
+		return 59000 + rng.Intn(6000) // one entry per 64 KB block: a separator between every adjacent pair
 	case x < 8:
-		return 20000 + rng.Intn(10000) // two or three per block
+		return 30000 + rng.Intn(15000) // two per block
 	default:
 		return valHeader + rng.Intn(200)
 	}
@@ -1139,13 +1219,16 @@ func loadAdv(path string) ([]row, error) {
 	return adv, err
 }
 
-func driveOne(rng *rand.Rand, enc *json.Encoder, t int, nkeys int, adv []row) (lines int, err error) {
+func driveOne(rng *rand.Rand, enc *json.Encoder, flush func(), t int, nkeys int, adv []row) (lines int, err error) {
 	e, err := newEngine()
 	if err != nil {
 		return 0, err
 	}
-	defer e.close()
-	r := &recorder{e: e, enc: enc}
+	r := &recorder{e: e, enc: enc, flush: flush}
+	defer func() {
+		e.abandoned = r.hung
+		e.close()
+	}()
 	l := blank("Reset")
 	l.V = t
 	r.emit(&l)
@@ -1238,12 +1321,12 @@ func cmdDrive(args []string) int {
 	for t := 0; t < *n; t++ {
 		var lines int
 		var derr error
-		_, _, hung := guarded(10*time.Minute, func() (*mismatch, error) {
-			lines, derr = driveOne(rng, enc, t, sizes[t%len(sizes)], adv)
+		_, _, hung := guarded(15*time.Minute, func() (*mismatch, error) {
+			lines, derr = driveOne(rng, enc, func() { _ = w.Flush() }, t, sizes[t%len(sizes)], adv)
 			return nil, nil
 		})
 		if hung {
-			fmt.Fprintln(os.Stderr, "driver did not finish a data set within 10 minutes")
+			fmt.Fprintln(os.Stderr, "driver did not finish a data set within 15 minutes")
 			return 2
 		}
 		if derr != nil {
@@ -1261,9 +1344,11 @@ func cmdDrive(args []string) int {
 // by the complete observation) and record what the engine does now
 
 type replayFile struct {
-	Kind  string  `json:"kind"`
-	Calls []tline `json:"calls"` // trace prefix (mutations and queries, arguments are re-used, results re-observed)
-	Path  []call  `json:"path"`  // or: a behaviour path, observed afterwards with every query on every key
+	Kind   string    `json:"kind"`
+	Rows   []realRow `json:"rows"`   // kind "comparer": pairs/triples to put to the installed comparer again
+	Calls  []tline   `json:"calls"`  // trace prefix (mutations and queries, arguments are re-used, results re-observed)
+	Path   []call    `json:"path"`   // or: a behaviour path, observed afterwards with every query on every key
+	Probes []key     `json:"probes"` // ... and on these keys
 }
 
 func cmdRerun(args []string) int {
@@ -1289,13 +1374,26 @@ func cmdRerun(args []string) int {
 	defer f.Close()
 	w := bufio.NewWriter(f)
 	defer w.Flush()
+	if rf.Kind == "comparer" {
+		enc := json.NewEncoder(w)
+		for _, x := range rf.Rows {
+			if err := enc.Encode(observeComparer(x.A, x.B, x.C)); err != nil {
+				fmt.Fprintln(os.Stderr, err)
+				return 2
+			}
+		}
+		return 0
+	}
 	e, err := newEngine()
 	if err != nil {
 		fmt.Fprintln(os.Stderr, err)
 		return 2
 	}
-	defer e.close()
 	r := &recorder{e: e, enc: json.NewEncoder(w)}
+	defer func() {
+		e.abandoned = r.hung
+		e.close()
+	}()
 	l := blank("Reset")
 	r.emit(&l)
 	if len(rf.Calls) > 0 {
@@ -1321,6 +1419,12 @@ func cmdRerun(args []string) int {
 				seen[k.s()] = true
 				ks = append(ks, k.s())
 			}
+		}
+	}
+	for _, k := range rf.Probes {
+		if len(k) > 0 && !seen[k.s()] {
+			seen[k.s()] = true
+			ks = append(ks, k.s())
 		}
 	}
 	sort.Strings(ks)
